@@ -312,16 +312,62 @@ Definition succs (c : actx) (s : state) : list state :=
   (if a_cancel c then opt_cons (step qs s Cancel) [] else []) ++
   flat_map (obs_succs s) (a_obs c).
 
-(** Reduction. An idle worker at WTop / WTry is observationally the same as one at WBlock while the
-    context is live (WCheck and WTryFail are always enabled, WBlock accepts everything WTry accepts),
-    a worker at WTop after the cancel can only die, and a queue goroutine at QTry is the same as one
-    at QOffer (QTryFail always enabled, QOffer accepts the own-worker hand-over too). Taking these
-    steps eagerly keeps one representative per class. [reduce = false] switches it off (the driver
-    compares both on the short histories). *)
+(** Reduction (quotient by silent steps that no observation can tell apart). Always:
+    - an idle worker at WTop / WTry is the same as one at WBlock while the context is live (WCheck and
+      WTryFail are always enabled, WBlock accepts everything WTry accepts); at WTop after the cancel it
+      can only die;
+    - a queue goroutine at QHeld / QTry is the same as one at QOffer while the context is live (same
+      contribution to the counter, QOffer accepts the own-worker hand-over too and can still die
+      holding the task after a cancel); at QHeld after the cancel it can only die holding the task;
+    - a worker whose task recorded [F:t:ret] may be taken to have left Start() ([WEnd j None] changes
+      nothing a filter reads and only enables more).
+    When no Status() result lies ahead in the history ([sa = false]) the counter, the buffer lengths
+    and the panic slot are unobservable, and also [QDecr], [QTake], [QCount] and [WEnd j (Some v)] are
+    taken eagerly. [reduce = false] switches all of this off (the driver can compare both). *)
 Definition try_step (s : state) (l : label) : state := match step qs s l with Some x => x | None => s end.
-Definition norm_lane (s : state) (i : nat) : state :=
-  try_step (try_step (try_step s (WCheck i)) (WTryFail i)) (QTryFail i).
-Definition norm (s : state) : state := if reduce then fold_left norm_lane (seq 0 n) s else s.
+Definition no_more_starts (s : state) : bool :=
+  forallb (fun t => mem t (started s)) (lk_starts lk).
+(* a PushTask call in flight that may still put a task into lane i *)
+Definition push_may_arrive (c : actx) (s : state) (i : nat) : bool :=
+  existsb (fun pc => let '(p, (j, t)) := pc in
+                     Nat.eqb i j &&
+                     match afind (lk_res lk) t with Some ROk | None => true | _ => false end &&
+                     match pstate_of s p with Done _ _ => false | _ => true end)
+          (a_calls c).
+Definition norm_lane (sa : bool) (c : actx) (s : state) (i : nat) : state :=
+  let s :=
+    match nth_error (lanes s) i with
+    | Some ln => match w ln with
+                 | WRun t => match afind (a_fin c) t with
+                             | Some None => try_step s (WEnd i None)
+                             | Some (Some v) => if sa then s else try_step s (WEnd i (Some v))
+                             | None => s end
+                 | _ => s end
+    | None => s end in
+  let s := try_step (try_step s (WCheck i)) (WTryFail i) in
+  let s := if sa then s else try_step (try_step (try_step s (QDecr i)) (QTake i)) (QCount i) in
+  let s := try_step (try_step s (QCheck i)) (QTryFail i) in
+  (* after the cancel: goroutines that can do nothing but die *)
+  if cancelled s then
+    let s := if no_more_starts s then try_step s (WDie i) else s in
+    match nth_error (lanes s) i with
+    | Some ln =>
+        match q ln with
+        | QOffer t => if mem t (lk_starts lk) && negb (mem t (started s)) then s else try_step s (QDie i)
+        | QWait => match buf ln with
+                   | [] => if push_may_arrive c s i then s else try_step s (QDie i)
+                   | _ => s end
+        | _ => s end
+    | None => s end
+  else s.
+(* calls and observers in flight: beginning them is silent and cannot be told from beginning later
+   ([cancelled] only ever turns true, and a call begun while it is false can still end with the ctx error) *)
+Definition norm_calls (c : actx) (s : state) : state :=
+  let s := fold_left (fun s pc => let '(p, (i, t)) := pc in
+                                  if mem t (pushed s) then s else try_step s (PushBegin p i t)) (a_calls c) s in
+  fold_left (fun s o => match snap_of s o with Some _ => s | None => try_step s (StatusBegin o) end) (a_obs c) s.
+Definition norm (sa : bool) (c : actx) (s : state) : state :=
+  if reduce then fold_left (norm_lane sa c) (seq 0 n) (norm_calls c s) else s.
 
 (** canonical key of a state: everything the future can depend on (lanes, flag, counter, panic slot,
     the calls and observers in flight); the logs of the past (accepted/started/finished/...) are not
@@ -378,20 +424,20 @@ Fixpoint add_all (c : actx) (ns : list state) (seen : tree) (work : list state) 
   end.
 
 (** closure of the work list under the silent labels; [None] = out of fuel *)
-Fixpoint close (fuel : nat) (c : actx) (work : list state) (seen : tree) (acc : list state) : option (list state) :=
+Fixpoint close (fuel : nat) (sa : bool) (c : actx) (work : list state) (seen : tree) (acc : list state) : option (list state) :=
   match work with
   | [] => Some acc
   | s :: w' =>
       match fuel with
       | O => None
-      | S f => let '(seen', work') := add_all c (map norm (succs c s)) seen w' in
-               close f c work' seen' (s :: acc)
+      | S f => let '(seen', work') := add_all c (map (norm sa c) (succs c s)) seen w' in
+               close f sa c work' seen' (s :: acc)
       end
   end.
 
-Definition closure (fuel : nat) (c : actx) (belief : list state) : option (list state) :=
-  let '(seen, work) := add_all c belief Leaf [] in
-  close fuel c work seen [].
+Definition closure (fuel : nat) (sa : bool) (c : actx) (belief : list state) : option (list state) :=
+  let '(seen, work) := add_all c (map (norm sa c) belief) Leaf [] in
+  close fuel sa c work seen [].
 
 Definition all_dead (s : state) : bool :=
   forallb (fun l => match q l, w l with QDead _, WDead => true | _, _ => false end) (lanes s).
@@ -434,6 +480,8 @@ Definition ctx_close (c : actx) (e : event) : actx :=
   | _ => c
   end.
 
+Definition is_status (e : event) : bool := match e with EQe _ _ _ => true | _ => false end.
+
 Inductive aresult :=
 | Accepted (max_belief : nat)
 | Rejected (at_event : nat) (max_belief : nat)   (* no model state is consistent with the history up to and including this event *)
@@ -450,7 +498,7 @@ Fixpoint accept (fuel : nat) (c : actx) (belief : list state) (evs : list event)
       match filter_of c1 e with
       | None => accept fuel c1 belief r (S idx) maxb
       | Some f =>
-          match closure fuel c1 belief with
+          match closure fuel (existsb is_status evs) c1 belief with
           | None => FuelOut idx
           | Some all =>
               let maxb' := Nat.max maxb (length all) in
@@ -464,7 +512,7 @@ Fixpoint accept (fuel : nat) (c : actx) (belief : list state) (evs : list event)
 End Acceptor.
 
 Definition accept_history (n qs fuel : nat) (reduce : bool) (evs : list event) : aresult :=
-  accept qs n (mk_look evs) reduce fuel actx0 [norm qs n reduce (init n)] evs 0 1.
+  accept qs n (mk_look evs) reduce fuel actx0 [init n] evs 0 1.
 
 (* ------------------------------------------------------------------ *)
 (** * Verdict *)
